@@ -18,10 +18,24 @@ def new_fn(ty):
 
 
 def le_value(it):
-    """value x of an item extend_from_slice(&x.to_le_bytes())"""
+    """the scalar x an item encodes in little-endian order: extend_from_slice(&x.to_le_bytes()), and for one-byte
+    items also push(x), a one-element array or a one-byte constant"""
+    if it is None:
+        return None
     v = peel(it['value'], unwraps=False)
+    while is_call(v, r'to_vec$|as_slice$|Deref::deref$') or (is_call(v, r'Index<I>>::index$|Index::index$') and 'RangeFull' in short(v[2][1])):
+        v = peel(v[2][0], unwraps=False)
     if is_call(v, r'to_le_bytes$'):
         return v[2][0]
+    if it.get('width') == 1:
+        if it['op'] == 'push':
+            return it['value']
+        if isinstance(v, tuple) and v[0] == 'agg' and v[1] == 'array' and len(v[2]) == 1:
+            return v[2][0]
+        if isinstance(v, tuple) and v[0] == 'bytes' and len(v[1]) == 2:
+            return ('const', int(v[1], 16), None, 'u8')
+    if isinstance(v, tuple) and v[0] == 'bytes' and it.get('width') in (2, 4, 8) and len(v[1]) == 2 * it['width']:
+        return ('const', int.from_bytes(bytes.fromhex(v[1]), 'little'), None, 'u%d' % (8 * it['width']))
     return None
 
 
@@ -61,31 +75,33 @@ def run(ctx):
             off += w
         hdr_len = off
         items = vec_layout(rf, must_targets=some_points(rf))
-        offs = offsets(items)
-        woff = {}
-        for it, o in zip(items, offs):
-            lv_ = le_value(it)
-            fld = self_field(lv_) if lv_ is not None else self_field(it['value'])
-            if fld:
-                woff[fld] = (o, it['width'], 'le' if lv_ is not None else None)
+        # byte-level writer layout of the header (everything before the payload), independent of the spelling
+        pay_i = [k for k, it in enumerate(items) if calls_in(it['value'], r'Payload::repl$') != []]
+        hitems = items[:pay_i[0]] if pay_i else items
+        bl = byte_layout(rf, hitems)
+        wb = [x[0] for x in bl]
+        sized = all(x[0][0] != 'blob' for x in bl)
         for fld in echoes:
-            ok = fld in roff and fld in woff and roff[fld][0] == woff[fld][0] and roff[fld][1] == woff[fld][1] and (roff[fld][2] == woff[fld][2] or roff[fld][1] == 1)
-            rep.check(r1, ok, '%s:echo:%s' % (ver, fld), 'read at %s, written at %s' % (roff.get(fld), woff.get(fld)), '%s:%d' % (rf.file, rf.line))
+            ok = sized and fld in roff and isinstance(roff[fld][1], int)
+            got = None
+            if ok:
+                o, w, en = roff[fld]
+                got = wb[o:o + w]
+                ok = got == [('field', fld, k) for k in range(w)] and (en == 'le' or w == 1)
+            rep.check(r1, ok, '%s:echo:%s' % (ver, fld), 'read at %s (little-endian), reply bytes there: %s' % (roff.get(fld), got), '%s:%d' % (rf.file, rf.line))
         # magic, flags, total header length, payload last, everything on every reply path
-        m0 = items[0] if items else None
-        rep.check(r1, m0 is not None and peel(m0['value'])[:2] == ('bytes', magic.hex()) and offs[0] == 0, ver + ':magic', 'first bytes %s' % (short(m0['value']) if m0 else None), m0['loc'] if m0 else '')
-        fl = [(it, o) for it, o in zip(items, offs) if o == flag_off]
-        okf = len(fl) == 1 and fl[0][0]['width'] == flag_w
-        fv = None
-        if okf:
-            fv = const_val(le_value(fl[0][0]) if le_value(fl[0][0]) is not None else fl[0][0]['value'])
-            okf = fv is not None and (fv & flag_bit) == flag_bit
-        rep.check(r1, okf, ver + ':reply-flag', 'flags at offset %d = %s (reply bit %#x)' % (flag_off, hex(fv) if fv is not None else None, flag_bit), fl[0][0]['loc'] if fl else '')
+        okm = sized and wb[:4] == [('const', b) for b in magic]
+        rep.check(r1, okm, ver + ':magic', 'first bytes %s' % (wb[:4],), hitems[0]['loc'] if hitems else '')
+        fb = wb[flag_off:flag_off + flag_w] if sized else []
+        okf = len(fb) == flag_w and all(b[0] == 'const' for b in fb)
+        fv = sum(b[1] << (8 * k) for k, b in enumerate(fb)) if okf else None
+        okf = okf and (fv & flag_bit) == flag_bit
+        rep.check(r1, okf, ver + ':reply-flag', 'flags at offset %d = %s (reply bit %#x)' % (flag_off, hex(fv) if fv is not None else None, flag_bit), '%s:%d' % (rf.file, rf.line))
         # the gate in get_payload tests the flags field read at that same offset
         rep.check(r1, roff.get('flags', (None,))[0] == flag_off, ver + ':flags-read-offset', 'request flags are read at offset %s' % (roff.get('flags'),))
         last = items[-1] if items else None
-        okp = last is not None and offs[-1] == hdr_len and calls_in(last['value'], r'Payload::repl$') != []
-        rep.check(r1, okp, ver + ':header-length', 'payload appended at offset %s, request header is %d bytes' % (offs[-1] if offs else None, hdr_len), last['loc'] if last else '')
+        okp = last is not None and sized and len(wb) == hdr_len and bool(pay_i) and pay_i[0] == len(items) - 1
+        rep.check(r1, okp, ver + ':header-length', 'payload appended after %s header bytes, request header is %d bytes' % (len(wb) if sized else None, hdr_len), last['loc'] if last else '')
         rep.check(r1, all(it['must'] and not it['in_loop'] for it in items), ver + ':straight-line', 'all %d appends run exactly once on every reply path' % len(items))
         # R3: command dispatch in get_payload
         gp = F.fn('%s%sHeader::get_payload' % (P, ver))
@@ -101,20 +117,22 @@ def run(ctx):
     nb = F.fn('<proto::smb::NBTSession<T> as proto::dissector::MPacket>::repl')
     rep.saw(nb)
     items = vec_layout(nb, must_targets=some_points(nb))
-    offs = offsets(items)
-    ok = len(items) == 4 and [it['width'] for it in items[:3]] == [1, 1, 2] and const_val(items[0]['value']) == 0
+    pay_i = [k for k, it in enumerate(items) if calls_in(it['value'], r'::repl$') != [] and not calls_in(it['value'], r'len$')]
+    ok = len(pay_i) == 1 and pay_i[0] == len(items) - 1
     det = 'items %s' % [(it['op'], it['width']) for it in items]
     if ok:
-        pay = peel(items[3]['value'], unwraps=False)
-        hi, lo = items[1]['value'], items[2]['value']
-        # both derive from len(payload) & 0x1ffff
-        def from_len(e):
-            ls = [c for c in walk(e) if isinstance(c, tuple) and c[0] == 'call' and re.search(r'len$', c[1])]
-            return ls and all(peel(c[2][0], unwraps=False) == pay for c in ls)
-        masks_hi = [x for x in walk(hi) if isinstance(x, tuple) and x[0] == 'bin' and x[1] == 'Shr' and const_val(x[3]) == 16]
-        be = is_call(peel(lo, unwraps=False), r'to_be_bytes$')
-        ok = from_len(hi) and from_len(lo) and bool(masks_hi) and be
-        det = 'type 0, length = len(payload) as 17 bits big-endian: high<-%s low<-%s' % (short(hi)[:60], short(lo)[:60])
+        pay = peel(items[-1]['value'], unwraps=False)
+
+        def src(e):
+            if is_call(e, r'Vec::<[^>]*>::len$|\[T\]>::len$') and peel(e[2][0], unwraps=False) == pay:
+                return ('len', 64)
+            return None
+        bl = byte_layout(nb, items[:-1], source=src)
+        bits = [x[2] for x in bl]
+        L = lambda k: ('in', 'len', k)
+        want = [[0] * 8, [L(16)] + [0] * 7, [L(k) for k in range(8, 16)], [L(k) for k in range(0, 8)]]
+        ok = bits == want
+        det = 'type 0, then len(payload) & 0x1ffff as 24-bit big-endian, bit-exact: %s' % ok
     rep.check(r2, ok, 'netbios:length', det, items[0]['loc'] if items else '')
     seq, _ = dissector_layout(F, '<proto::smb::NBTSession<T> as proto::dissector::MPacket>::parse', '<proto::smb::NBTSession<T> as proto::dissector::MPacket>::new')
     rep.check(r2, [(s[0], s[2]) for s in seq[:3]] == [('NBType', 1), ('Reserved', 1), ('Length', 2)], 'netbios:request-framing', 'request framing read as %s' % [(s[0], s[2]) for s in seq])
@@ -156,7 +174,12 @@ def run(ctx):
         rep.check(r3, okd, 'smb2-negotiate:dialect-or-silence', 'DialectRevision <- %s (None => no reply)' % (short(dial)[:100] if dial else None), dv['loc'] if dv else '')
         # the find closure tests membership in the dialects the client offered
         okc = False
-        for cid in F.closures_of.get(f.id, []):
+        cids = set(F.closures_of.get(f.id, []))
+        if dial is not None:
+            cids |= {x[1][len('closure:'):] for x in walk(dial) if isinstance(x, tuple) and x[0] == 'agg' and str(x[1]).startswith('closure:')}
+        for cid in sorted(cids):
+            if cid not in F.fns:
+                continue
             c = F.fn(cid)
             for cb, ct in c.calls(r'HashSet::<[^>]*>::contains$'):
                 a0 = short(c.argv(cb, 0))
@@ -189,7 +212,7 @@ def run(ctx):
         if ok:
             bc = items[bc_i[0]]
             words = offs[bc_i[0]] - 1
-            rep.check(r2, const_val(wc['value']) * 2 == words, 'smb1-negotiate:WordCount', 'WordCount %s, parameter bytes present %s' % (const_val(wc['value']), words), wc['loc'])
+            rep.check(r2, (const_val(le_value(wc)) or 0) * 2 == words, 'smb1-negotiate:WordCount', 'WordCount %s, parameter bytes present %s' % (const_val(le_value(wc)), words), wc['loc'])
             after = items[bc_i[0] + 1:]
             fixed = sum(it['width'] for it in after if it is not blob)
             v = peel(le_value(bc), casts=True)
@@ -218,7 +241,7 @@ def run(ctx):
         if ok:
             sl, bc = lens[0][1], lens[1][1]
             words = offs[lens[1][0]] - 1
-            rep.check(r2, const_val(wc['value']) * 2 == words, 'smb1-session:WordCount', 'WordCount %s, parameter bytes present %s' % (const_val(wc['value']), words), wc['loc'])
+            rep.check(r2, (const_val(le_value(wc)) or 0) * 2 == words, 'smb1-session:WordCount', 'WordCount %s, parameter bytes present %s' % (const_val(le_value(wc)), words), wc['loc'])
             rep.check(r2, len_of(le_value(sl), blob['value']), 'smb1-session:SecurityBlobLength', 'SecurityBlobLength <- %s' % short(le_value(sl))[:60], sl['loc'])
             after = items[lens[1][0] + 1:]
             # ByteCount = sum of len() of exactly the constants appended after it
